@@ -7,6 +7,17 @@ from .state import Storage
 log = logging.getLogger(__name__)
 
 
+class _Result:                                  # pylint: disable=too-few-public-methods
+    """Everything a caller needs from a cursor, captured while the connection mutex is still held."""
+    def __init__(self, db_cursor):
+        self.rows = db_cursor.fetchall()
+        self.lastrowid = db_cursor.lastrowid
+        self.rowcount = db_cursor.rowcount
+
+    def fetchall(self):
+        return self.rows
+
+
 class SqliteStorage(Storage):
     """
     Local disk storage using sqlite.
@@ -39,7 +50,9 @@ class SqliteStorage(Storage):
             except sqlite3.OperationalError:
                 self.__db_connect()  # reconnect
                 retval = self.db.execute(sql, parameters)
-            return retval
+            # the connection (and its statement cache) is shared by all threads: a cursor must not be
+            # read after the mutex is released, another thread's execute() can reset or rebind it
+            return _Result(retval)
 
     def _ensure_table_exists(self):
         self.__db_execute("PRAGMA journal_mode=WAL;")
